@@ -43,14 +43,16 @@ class CodecRegistry(object):
 
     def add_file_codec(self, codec: FileCodecProtocol) -> None:
         """added codecs come on top"""
+        if codec.ref() in self._protocols:
+            # Skipped as a whole: a blob written by this codec would be labelled with a reference that is read
+            # back by the codec already registered under it.
+            _logger.warning(f"{codec.ref()} already in protocols, skipping {codec}")
+            return
         self.file_codecs.insert(0, codec)
         for t in codec.handled_types():
             if t not in self._handled_types:
                 self._handled_types[t] = codec
-        if codec.ref() in self._protocols:
-            _logger.warning(f"{codec.ref()} already in protocols, skipping {codec}")
-        else:
-            self._protocols[codec.ref()] = codec
+        self._protocols[codec.ref()] = codec
 
     # TODO: add the location too.
     def get_codec(
